@@ -75,6 +75,56 @@ def programs(rng, n):
     return out
 
 
+
+def tlc_schedules(ctx, cfg, nwalks):
+    """behaviours of SysSync.tla (configuration cfg) as driver scripts: the program of the initial state, and the order in which the
+    threads take their state-changing steps along a walk through TLC's state graph (least-visited edge first)"""
+    r, g = ctx.tlc_graph("SysSyncMC", cfg, workers=8, timeout=1200)
+    ctx.models.pop()
+    if not r.ok or g is None:
+        return [], 0, 0
+    st = {}
+    def state(n):
+        if n not in st: st[n] = core.parse_state(g.state[n])
+        return st[n]
+    out_edges = {a: [b for (lab, b) in v] for a, v in g.out.items()}
+    visits = {}
+    scripts = []
+    inits = list(g.init)
+    for w in range(nwalks):
+        n = ctx.rng.choice(inits); s0 = state(n)
+        prog = s0["prog"]; nth = len(prog)
+        lines = ["R sync %d" % nth]
+        for t, ops in enumerate(prog, 1):
+            for op in ops:
+                k = op[0]
+                if k in ("lock", "unlock", "save", "restore", "pop"): lines.append("P %d %s" % (t, k))
+                elif k == "wait": lines.append("P %d wait %d" % (t, op[1]))
+                elif k == "unwait_one": lines.append("P %d unwait_once %d" % (t, op[1]))
+                elif k == "unwait_all": lines.append("P %d unwait_all_now %d" % (t, op[1]))
+                elif k == "push": lines.append("P %d push %d" % (t, op[1]))
+                elif k == "denq": lines.append("P %d denq %d %d" % (t, op[1], 1 if op[2] else 0))
+        sched = []
+        for _ in range(600):
+            succ = [b for b in out_edges.get(n, []) if b != n]
+            if not succ: break
+            lo = min(visits.get((n, b), 0) for b in succ)
+            b = ctx.rng.choice([x for x in succ if visits.get((n, x), 0) == lo])
+            visits[(n, b)] = visits.get((n, b), 0) + 1
+            sa, sb = state(n), state(b)
+            who = [t for t in range(1, nth + 1) if sa["ip"][t - 1] != sb["ip"][t - 1] or sa["pc"][t - 1] != sb["pc"][t - 1]]
+            if len(who) == 1:
+                t = who[0]; ipt = sa["ip"][t - 1]; pct = sa["pc"][t - 1]
+                kind = sa["prog"][t - 1][ipt - 1][0] if ipt <= len(sa["prog"][t - 1]) else ""
+                silent = (kind in ("push", "pop") and pct in ("start", "out")) or (kind in ("unwait_one", "unwait_all") and pct == "after")
+                if not silent: sched.append(t)      # steps without a hook point (semaphore in / out, loop bookkeeping) are not scheduled
+            n = b
+        if not sched: continue
+        lines.append("GO %d log 0 ctl:%s" % (ctx.rng.randrange(1, 1 << 30), ",".join(str(x) for x in sched)))
+        scripts.append(lines)
+    nedges = sum(len(set(v)) for v in out_edges.values())
+    return scripts, len(visits), nedges
+
 def check(ctx):
     R = core.REPO
     srcs = ["drv_sync.cpp"] + [R + s for s in SRC]
@@ -109,6 +159,25 @@ def check(ctx):
     bad = ctx.judge("SysSyncTrace", [t1])
     for b in bad: b["driver"] = "drv_sync"
     ctx.report(bad)
+    # 2a. TLC-generated behaviours replayed: the program of a model configuration runs on real threads and the hook events are released in
+    # the order in which the threads step along a walk through TLC's state graph; the recorded events are validated like all others
+    ctl = []; followed_edges = 0; total_edges = 0
+    for cfg in ["SysSyncLock.cfg", "SysSyncQueue.cfg", "SysSyncWake.cfg", "SysSyncRewait.cfg", "SysSyncDeleg.cfg"]:
+        sc, cov, tot = tlc_schedules(ctx, cfg, 400 if ctx.thorough else 40)
+        followed_edges += cov; total_edges += tot
+        for x in sc: ctl += x
+    if ctl:
+        tc = ctx.drive(drv, ctl, "sync_controlled", timeout=900, env={"VERIF_OP_TIMEOUT": "0"}, par=8)
+        n_sched = n_exact = 0
+        for line in open(tc):
+            if line.startswith('{"e":"Sched"'):
+                e = json.loads(line); n_sched += 1; n_exact += 1 if e["stalls"] == 0 else 0
+        ctx.extra["controlled_executions"] = n_sched; ctx.extra["controlled_executions_without_stall"] = n_exact
+        ctx.extra["model_edges_walked"] = followed_edges; ctx.extra["model_edges_total"] = total_edges
+        core.log("controlled executions: %d, %d followed their TLC schedule without a stall; %d of %d model edges walked" % (n_sched, n_exact, followed_edges, total_edges))
+        bad = ctx.judge("SysSyncTrace", [tc], label="SysSyncControlled")
+        for b in bad: b["driver"] = "drv_sync"
+        ctx.report(bad)
     # 2b. the library as it is shipped: the same kind of programs on a build with NDEBUG (asserts compiled out - a side effect inside an
     # assert is only missing there)
     drv_nd = ctx.cxx("drv_sync_ndebug", srcs, san=None, flags=["-DNDEBUG"])
